@@ -11,4 +11,15 @@ open Strengths.Gen.PyIdioms
 and reads dictionaries by key) -/
 theorem rdoutput_value_semantic : valueSemantic inv_rdoutput = true := by decide +kernel
 
+/-- `rdoutput.py` never aliases an array on purpose: no `np.asarray`, `np.frombuffer`, `.view(…)`, `memoryview` — what a function
+returns is a fresh object (the model's values are immutable; this is the source fact that lets mutation of a returned
+object be ignored) -/
+theorem rdoutput_no_views : views_rdoutput = [] := by decide +kernel
+
+/-- a trajectory owns its data: `RDTrajectory.__init__` copies the data array, the sample times, the system and the script, each on its own (so `out.system` and `out.script.system` are different objects and none of them is the engine's or the caller's) -/
+theorem rdoutput_copies :
+    copies_rdoutput =
+      [("RDTrajectory.__init__", "data.copy()"), ("RDTrajectory.__init__", "t_sample.copy()"), ("RDTrajectory.__init__", "system.copy()"), ("RDTrajectory.__init__", "script.copy()")] := by
+  decide +kernel
+
 end Strengths.PyIdioms
